@@ -67,6 +67,11 @@ CHECKS = {
          "About 190 type instantiations (all colour structs, hues, Alpha, PreAlpha; f32/f64/u8) x a 21-point value lattice x 11 format variants round-trip bitwise; the recorded data-model call sequence is compared with the predicted shape (struct name/len = colour's own fields + 1 alpha at the same level, hue as a bare number in the data model, no standard/white_point field); all field orders x {alpha missing, duplicated at every position, unknown scalar or nested field at every position} x 7 map formats for Deserialize and the optional-alpha helpers; missing alpha => error for Alpha, full opacity for the helper; as_array / as_uint against cast::into_array / into_uint; mock colours of every serde shape (struct, tuple struct, newtype, unit, flatten, renamed, own alpha field, nested Alpha) under Alpha; unsupported AlphaDeserializer methods return an error, never a wrong value.",
          "Documented limitations of AlphaDeserializer (flattening a transparent colour into an outer struct; struct shapes in fixed-length formats) are recorded as notes, not alarms; Cam16 full/partials and Packed have no serde impls in the pinned tree.",
          "§4 C20"),
+ "C14": ("model_checking",
+         "exhaustive enumeration of complete small spaces on the real code: every grey level k/4096 (quick) / all 65 536 16-bit greys (thorough) incl. black and white of every RGB node of 8 compiler-discovered graphs through every outgoing edge and back; every entry of every RGB matrix pair; all 121 ordered pairs of 11 white points x 3 cone matrices x an XYZ lattice through both adaptation APIs",
+         "Every grey of every RGB standard (sRGB, linear, Adobe, Rec.709/2020, Display P3, DCI-P3, DCI-P3+, ProPhoto; f32/f64) is converted along every discovered edge: the result must be achromatic in the target's own terms (a/b, u/v, chroma, saturation, w+b=1, equal components, white-point chromaticity) and the conversion back must give equal RGB components; white must land on the XYZ of the white point, L* = 100 with zero a/b/u/v/chroma and Oklab (1,0,0). Matrix pairs are multiplied both ways against the identity and inverted. Adaptation: source white -> destination white, bit-exact identity between equal white points, there-and-back, deprecated and new API agree, for all white-point pairs, Bradford / von Kries / XYZ scaling, 344 XYZ points each.",
+         "Numerically zero = 2e-6 (f64) / 2e-5 (f32) of the component range, 50x that for saturation-type coordinates; CAM16 J = 100 for the adopted white is checked under C16. Three genuine findings recorded (saturation at white in Hsluv/Okhsl, M1 white point).",
+         "§4 C14"),
 }
 PENDING = {}
 ALL = ["C%02d" % i for i in range(1, 21)]
